@@ -120,8 +120,14 @@ func writeProviderEntry(ctx context.Context, dstore ds.Datastore, k []byte, p pe
 func (pm *ProviderManager) AddProvider(ctx context.Context, k []byte, provInfo peer.AddrInfo) error
   props C07 C14
   ghostvar $now time.Time = any
+  ghostvar $wrote bool = false
+  ghostvar $werr error = nil
   modifies *
   ensures [closed] imp(pm.stopped, result != nil)
+  # an addition is only reported as done when its (refreshed) timestamp went to
+  # the datastore - also when the provider was already in the cached set
+  ensures [internal-every-accepted-add-is-written-through] imp(result == nil, $wrote && $werr == nil)
+  ghost at call(writeProviderEntry): $wrote = true; $werr = $ret0
   ghost at call(Now): $now = $ret0
   ghost at before call(Get): assert(held(pm.mu) && !pm.stopped)
   ghost at before call(setVal): assert(held(pm.mu) && $arg0 == provInfo.ID && $arg1 == $now)
@@ -193,4 +199,14 @@ func (v *ValueStore) gcLoop(ctx context.Context, interval time.Duration, closed 
   props C14
   modifies *
   ensures [exit-is-announced] tagged("closed:closed")
+
+# The provider GC loop runs every sweep ITSELF (no goroutine: Close waits for
+# this loop only, so a sweep handed to another goroutine would outlive Close),
+# leaves only when its context is cancelled and announces its exit.
+func (pm *ProviderManager) gcLoop(ctx context.Context)
+  props C07 C14
+  requires pm.closed != nil
+  modifies *
+  ensures [exit-is-announced] tagged("closed:pm.closed")
+  ensures [exit-only-on-cancel] tagged("recv:ctx.Done()")
 @*/
